@@ -74,3 +74,161 @@ package nbs
 //@     invariant forall k in 0..int(idx): !verif_present(ti, h, uint32(k))
 //@     invariant forall k in int(idx)..int(ti.count): verif_pfx(ti, uint32(k)) >= prefix
 //@     decreases ti.count - idx
+
+// ---- journal records (C03, C10)
+
+//@ func readUint32
+//@   property C03 C10
+//@   nopanic
+//@   requires len(buf) >= 4
+//@   ensures  result == verif_be32(buf)
+//@   modifies nothing
+//@ func writeUint32
+//@   property C03
+//@   nopanic
+//@   requires len(buf) >= 4
+//@   ensures  verif_be32(buf) == u
+//@   modifies buf[0:4]
+//@ func readUint64
+//@   property C03 C10
+//@   nopanic
+//@   requires len(buf) >= 8
+//@   ensures  result == verif_be64(buf)
+//@   modifies nothing
+//@ func writeUint64
+//@   property C03
+//@   nopanic
+//@   requires len(buf) >= 8
+//@   ensures  verif_be64(buf) == u
+//@   modifies buf[0:8]
+
+//@ func rootHashRecordSize
+//@   property C03
+//@   nopanic
+//@   ensures  recordSz == 40
+
+//@ func chunkRecordSize
+//@   property C03
+//@   nopanic
+//@   requires len(c.FullCompressedChunk) <= 4294967295 - 32
+//@   ensures  payloadOff == 28 && recordSz == uint32(len(c.FullCompressedChunk)) + 32
+
+// validateJournalRecord: the precondition is what all three call sites establish (the buffer was cut to the
+// length its own length field announces, or is shorter than the minimum record).
+//@ func validateJournalRecord
+//@   property C03 C10
+//@   nopanic
+//@   requires len(buf) < 8 || int(verif_be32(buf)) == len(buf)
+//@   ensures  result == nil ==> verif_validrec(buf)
+//@   ensures  verif_validrec(buf) ==> result == nil
+//@   modifies nothing
+
+// ---- journal writer: an acknowledged root is durable (C02, C03)
+
+//@ ghost_global verif_ghost
+
+//@ extern (*os.File).Sync as verif_x_File_Sync
+//@   modifies nothing
+//@   ghost_set verif_ghost.jDurableRoot = verif_ghost.jDurableRoot || (verif_ghost.jFileRoot && err == nil)
+
+//@ extern (*os.File).WriteAt as verif_x_File_WriteAt
+//@   modifies nothing
+//@   ghost_set verif_ghost.jFileRoot = verif_ghost.jFileRoot || (verif_ghost.jBufRoot && err == nil)
+
+// Fatalf either never returns (crash behaviour) or returns fmt.Errorf(...): assumed from its 12-line body.
+//@ extern github.com/dolthub/dolt/go/libraries/utils/errors.Fatalf as verif_x_Fatalf
+//@   modifies nothing
+//@   ensures err != nil
+
+//@ func writeRootHashRecord
+//@   property C03
+//@   nopanic
+//@   requires len(buf) >= 40
+//@   ensures  n == 40
+//@   ensures  verif_be32(buf) == 40 && buf[4] == 1 && buf[5] == 1 && buf[6] == 4 && buf[15] == 2
+//@   ensures  forall i in 0..20: buf[16+i] == root[i]
+//@   ensures  verif_be32(buf[36:]) == crc(buf[:36])
+//@   modifies buf[0:40]
+//@   ghost_set verif_ghost.jRoot = root
+//@   ghost_set verif_ghost.jBufRoot = true
+//@   ghost_set verif_ghost.jFileRoot = false
+//@   ghost_set verif_ghost.jDurableRoot = false
+
+//@ func (*journalWriter).flush
+//@   property C03
+//@   ensures  err == nil ==> (old(verif_ghost.jBufRoot) ==> verif_ghost.jFileRoot)
+//@   ensures  verif_ghost.jRoot == old(verif_ghost.jRoot) && verif_ghost.jBufRoot == old(verif_ghost.jBufRoot) && verif_ghost.jDurableRoot == old(verif_ghost.jDurableRoot)
+//@   ensures  wr.currentRoot == old(wr.currentRoot) && wr.journal == old(wr.journal)
+//@   modifies wr.off, wr.buf, verif_ghost.jFileRoot
+
+//@ func (*journalWriter).getBytes
+//@   property C03
+//@   ensures  err == nil ==> len(buf) == n
+//@   ensures  verif_ghost.jRoot == old(verif_ghost.jRoot) && verif_ghost.jBufRoot == old(verif_ghost.jBufRoot) && verif_ghost.jDurableRoot == old(verif_ghost.jDurableRoot)
+//@   ensures  wr.currentRoot == old(wr.currentRoot) && wr.journal == old(wr.journal)
+//@   modifies wr.off, wr.buf, verif_ghost.jFileRoot
+
+//@ func (*journalWriter).commitRootHashUnlocked
+//@   property C03 C02
+//@   requires !verif_ghost.jBufRoot && !verif_ghost.jFileRoot && !verif_ghost.jDurableRoot
+//@   ensures  result == nil ==> verif_ghost.jDurableRoot && verif_ghost.jRoot == root
+//@   ensures  result == nil ==> wr.currentRoot == root
+
+// io.ReadFull: documented behaviour (n == len(buf) iff err == nil; io.EOF only when nothing was read;
+// io.ErrUnexpectedEOF after a partial read).
+//@ extern io.ReadFull as verif_x_io_ReadFull
+//@   ensures 0 <= n && n <= len(buf)
+//@   ensures err == nil ==> n == len(buf)
+//@   ensures err == io.EOF ==> n == 0
+//@   ensures err == io.ErrUnexpectedEOF ==> n < len(buf)
+//@   modifies buf[0:len(buf)]
+
+// readJournalRecord: for every buffer that passed validateJournalRecord (only the length fact is needed)
+// parsing terminates without a panic; after the fix in commit 9379be5 truncated fields are errors.
+//@ func readJournalRecord
+//@   property C03 C10
+//@   nopanic
+//@   requires len(buf) >= 8
+//@   ensures  rec.length == verif_be32(buf)
+//@   modifies nothing
+//@   loop 1
+//@     invariant rec.length == verif_be32(old(buf))
+//@     decreases len(buf)
+
+//@ func writeChunkRecord
+//@   property C03
+//@   nopanic
+//@   requires len(c.FullCompressedChunk) <= 4294967295 - 32
+//@   requires len(buf) == len(c.FullCompressedChunk) + 32
+//@   ensures  n == uint32(len(buf))
+//@   ensures  verif_be32(buf) == n && buf[4] == 1 && buf[5] == 2 && buf[6] == 2 && buf[27] == 3
+//@   ensures  forall i in 0..20: buf[7+i] == c.H[i]
+//@   ensures  forall i in 0..len(c.FullCompressedChunk): buf[28+i] == c.FullCompressedChunk[i]
+//@   ensures  verif_be32(buf[len(buf)-4:]) == crc(buf[:len(buf)-4])
+//@   modifies buf[0:len(buf)]
+
+// A root record written by writeRootHashRecord validates and reads back as that root.
+//@ lemma verif_lemma_rootrec_roundtrip
+//@   property C03
+//@   requires len(buf) == 40
+//@   inline_call readJournalRecord unroll 4
+
+// A chunk record written by writeChunkRecord validates and reads back the same address and payload.
+//@ lemma verif_lemma_chunkrec_roundtrip
+//@   property C03
+//@   requires len(c.FullCompressedChunk) >= 1 && len(c.FullCompressedChunk) <= 1000000
+//@   requires len(buf) == len(c.FullCompressedChunk) + 32
+//@   inline_call readJournalRecord unroll 4
+
+// possibleDataLossCheck: memory safety of the sliding window for every input stream, and the scan window is
+// exactly the carried-over bytes plus the bytes just read (no byte obtained from the reader is skipped).
+//@ func possibleDataLossCheck
+//@   property C03 C10
+//@   nopanic
+//@   loop 1
+//@     invariant 0 <= bufferPrefix && bufferPrefix <= len(buf) && !atEOF
+//@     invariant len(buf) == int(buffSize)
+//@   loop 2
+//@     invariant 0 <= idx && idx <= len(buf) && len(buf) <= int(buffSize)
+//@     invariant 0 <= bufferPrefix && 0 <= n && len(buf) == bufferPrefix + n
+//@     invariant !atEOF ==> len(buf) == int(buffSize)
